@@ -22,7 +22,7 @@ def const_preamble(r):
     return "\n".join(lines) + "\n"
 
 TEXTS = ["Hello there", "100% sure %s %d", "ROUTE 1 \u3000PALLET \u00a0TOWN", "aaaa aaa aa aaa aa aaa aa aaa aa aaa", "Price: 100$", "é ñ ü 𠮷野 😀", "{PLAYER} got {STR_VAR_1}!", "a\\nb\\lc\\pd", "x{y z}w }", "", "$", "ends\\0",
-         "tab\\there", "many   spaces   here", "LV. 50", "K_ONE", "VAR_A", "A", "lock", "Total: \\0", "a \\h b \\0", "\\0 \\x", "\\0", "\\\\\\0", "$", "\\"]
+         "tab\\there", "many   spaces   here", "LV. 50", "K_ONE", "VAR_A", "A", "lock", "Our #1 shop", "see //this one", "a /* b", "x */ y", "{K_ONE}: hi {VAR_A 15}", "Total: \\0", "a \\h b \\0", "\\0 \\x", "\\0", "\\\\\\0", "$", "\\"]
 TYPES = ["", "", "ascii", "braille", "custom", "jp"]
 
 def lit(r, t=None):
@@ -34,7 +34,9 @@ def lit(r, t=None):
     return ty + '"%s"' % t
 
 def fmt_call(r):
-    t = r.choice(TEXTS[:5] + ["bb bbb bb bbb bbbb bb bbb bb bbb bbbb"])
+    t = r.choice(TEXTS[:5] + ["bb bbb bb bbb bbbb bb bbb bb bbb bbbb", "Our #1 shop is //open /*now", "voted the #1 MART by */ many"])
+    if " " in t and r.random() < 0.25:        # the literal continues on the next source line (which may start like a comment)
+        k = r.choice([i for i, ch in enumerate(t) if ch == " "]); t = t[:k] + r.choice(["\n", "\r\n"]) + "        " + t[k + 1:]
     ps = []
     x = r.random()
     if x < 0.25: ps.append(r.choice(['"1_latin_rse"', '"1_latin_frlg"', '"F1"', '"TEST"', '"NOPE"']))
@@ -82,7 +84,7 @@ def extras(r, k):
         else:
             cmd = r.choice(["msgbox(%s)" % lit(r), "msgbox(%s, MSGBOX_X)" % fmt_call(r), "applymovement(1, moves(walk_up * 2 face_left))", "setvar(VAR_A, 0x1f)", "cmd(global)", "cmd(local)",
                             "goto_if_set(FLAG_A, X%d_L)" % k, "random(3)", "special(Foo)", "call(X%d_0)" % k, "two(%s, %s)" % (lit(r), lit(r)), "price(PRICE_OF(ITEM_A, 2), %s)" % lit(r), "mv(OBJ(1, MAP_X), moves(walk_up * 2 face_left))",
-                            "goto_if_unset(FLAG_B, Ext_L)", "setvar(VAR_A, BASE-1)", "addvar(VAR_A, 10-3)", "setvar(VAR_A, K_ONE (K_HEX + 1))", "addvar(K_HEX(3), (VAR_A) K_ONE 5)",
+                            "goto_if_unset(FLAG_B, Ext_L)", "setvar(VAR_A, BASE-1)", "addvar(VAR_A, 10-3)", "multichoice(0, 0, 2_OPTIONS, 1)", "setvar(VAR_A, 0x10_MASK)", "addvar(VAR_A, -3_STEPS, 1_000)", "setvar(VAR_A, K_ONE (K_HEX + 1))", "addvar(K_HEX(3), (VAR_A) K_ONE 5)",
                             'two(ascii"REX", "Is that ok?") msgbox("Is that ok?")', 'sign(braille"ABC", "ABC$", %s)' % lit(r)])
             cond = r.choice(["flag(FLAG_A)", "!defeated(TRAINER_A)", "var(VAR_A) >= value(0x4001)", "random(4) == 2 && flag(FLAG_A) || specialvar(VAR_X, 7) != 0", "checkitem(ITEM_A)", "var(VAR_B) != K_ONE", "var(VAR_A) == TRUE", "var(VAR_B) != false", "!(var(VAR_A) != TRUE) && random(3) == FALSE",
                             "flag(FLAG_A) && flag(FLAG_K) || flag(FLAG_B) && flag(FLAG_K)", "random(10) == 0 || random(10) == 0", "checkitem(ITEM_A) && flag(FLAG_A)"])
@@ -122,6 +124,7 @@ def gen_mix(rnd, n, tier="quick"):
         src = "\n".join(parts)
         if rnd.random() < 0.35: src = relayout(src, rnd)
         if rnd.random() < 0.1: src += rnd.choice(["# end", "//", " // x", "\n#"])
+        if rnd.random() < 0.12: src = rnd.choice(["# see data/maps/*/scripts.pory /* y\n", "// 2 */ potions\n", "# 3 potions\n", "#line 9 \"x\"\n"]) + src
         cfg = mix_cfg(rnd)
         out.append(Case(compile_line(cfg, src), src, cfg, {"mix": True}))
     return out
@@ -216,6 +219,7 @@ def boundary_program(r, k):
         out.append("mapscripts %s_ms { MAP_SCRIPT_ON_LOAD: %s MAP_SCRIPT_ON_FRAME_TABLE [ %s, %s: %s  VAR_T + %s, %s + 1 { lock } ] }" % (p, r.choice([k1, "Ext_Target"]), k1, k2, r.choice([k3, "Ext_Target"]), k1, k2))
         out.append("movement %s_mv { walk_up * 2 %s }" % (p, "walk_up" if "walk_up" in (k1, k2, k3) else "face_left"))
         out.append('text %s_t { "%s %s" }' % (p, k1, k2))
+        out.append('text %s_u { "{%s}: hi {%s 15}" }\nscript %s_v { msgbox(format("{%s} x {%s}")) }' % (p, k1, k2, p, k1, k3))
     elif shape == "repeats":
         # one construct many times in one file (past 32 / 64 / 128): per-file counters, caps, leaks
         n = r.choice([17, 33, 34, 40, 65, 70, 130])
